@@ -1122,15 +1122,43 @@ with warnings.catch_warnings():
             return x**2 + y
 
 
+def attr_fingerprint(v) -> str:
+    """Kind and value of a non-SymPy attribute, independent of the process (no addresses) and of the code under verification."""
+    import inspect as _inspect
+
+    if v is None:
+        return "None"
+    if _inspect.isclass(v):
+        return f"<class {v.__module__}.{v.__qualname__}>"
+    if _inspect.isfunction(v) or _inspect.ismethod(v) or _inspect.isbuiltin(v):
+        return f"<function {getattr(v, '__module__', '?')}.{getattr(v, '__qualname__', '?')}>"
+    if isinstance(v, (str, int, float, bool, bytes)):
+        return f"{type(v).__name__}:{v!r}"
+    if isinstance(v, (list, tuple)):
+        return f"{type(v).__name__}[" + ",".join(attr_fingerprint(x) for x in v) + "]"
+    if isinstance(v, dict):
+        return "dict{" + ",".join(f"{attr_fingerprint(k)}:{attr_fingerprint(x)}" for k, x in v.items()) + "}"
+    if isinstance(v, sp.Basic):
+        return "sympy:" + sp.srepr(v)
+    return f"{type(v).__module__}.{type(v).__qualname__}:{v!r}"[:200]
+
+
 def describe(obj) -> Any:
     """Process-independent description used to compare an object with its unpickled copy (srepr of every SymPy part,
     order of every mapping)."""
     if isinstance(obj, sp.Basic):
         extra = ""
-        if is_decorated(type(obj)):
-            extra = "".join(f"|{f.name}={D._get_hashable_object(getattr(obj, f.name, '<missing>'))!r}" for f in nonsympy_fields(type(obj)))  # noqa: SLF001
-        elif hasattr(obj, "_name"):
-            extra = f"|_name={obj._name!r}"  # noqa: SLF001
+        # every node of the tree that carries non-SymPy attributes, in preorder: kind AND value of each attribute, described by this
+        # harness (not by the repository's own hashing helper, which identifies a class with its qualified name as a string)
+        try:
+            nodes = list(sp.preorder_traversal(obj))
+        except Exception:  # noqa: BLE001
+            nodes = [obj]
+        for node in nodes:
+            if is_decorated(type(node)) and nonsympy_fields(type(node)):
+                extra += f"|{type(node).__name__}(" + ",".join(f"{f.name}={attr_fingerprint(getattr(node, f.name, '<missing>'))}" for f in nonsympy_fields(type(node))) + ")"
+            elif node is obj and hasattr(obj, "_name"):
+                extra += f"|_name={obj._name!r}"  # noqa: SLF001
         return sp.srepr(obj) + extra
     if type(obj).__name__ == "HelicityModel":
         return {
